@@ -297,6 +297,12 @@ async fn faulty_peer(addr: std::net::SocketAddr, tls: bool, dict: Arc<Dictionary
                 "zero-length" => { let _ = c.write_all(&[1, 0, 0, 0]).await; }
                 "stall-midframe" => { let r = request(&dict, "stall", 1); let _ = c.write_all(&r[..r.len() / 2]).await; }
                 "handler-panic" => { let _ = c.write_all(&request(&dict, "PANIC-now", 2)).await; }
+                "announce-leave" => {
+                    // announces the largest legal frame (1 MiB), sends a few octets of it and goes away
+                    let _ = c.write_all(&[1, 0x10, 0, 0, 0x80, 0, 1, 16, 0, 0, 0, 4, 0, 0, 0, 1]).await;
+                    tokio::time::sleep(Duration::from_millis(20)).await;
+                    return;
+                }
                 "vanish-before-answer" => {
                     // a complete request whose answer the (slow) handler is still preparing when the peer resets the connection:
                     // the server's write of that answer fails
@@ -346,7 +352,7 @@ pub fn scenario(st: &State, t: &mut Toks) -> PResult<String> {
         tokio::time::sleep(Duration::from_millis(seed % 20)).await;
         let hold = Duration::from_secs(30);
         let mut fh = Vec::new();
-        let slow_fault = faults.iter().any(|f| f == "vanish-before-answer");
+        let slow_fault = faults.iter().any(|f| f == "vanish-before-answer" || f == "announce-leave");
         for f in faults {
             fh.push(tokio::spawn(faulty_peer(addr, tls, Arc::clone(&dict), f, hold)));
             tokio::time::sleep(Duration::from_millis((seed >> 8) % 10)).await;
